@@ -116,12 +116,14 @@ type Report struct {
 	Notes      []string         `json:"notes,omitempty"`
 	Assume     []string         `json:"assumptions,omitempty"`
 	WallS      float64          `json:"wall_s"`
+	Hang       string           `json:"hang,omitempty"`
 	start      time.Time
 	deadline   time.Time
 	outPath    string
 	replayDir  string
 	replayFile string
 	sigSeen    map[string]bool
+	divNotes   int
 }
 
 var (
@@ -572,6 +574,13 @@ func safeRun(run func(c *Chooser) Outcome, c *Chooser) (out Outcome) {
 		if p := recover(); p != nil {
 			if d, ok := p.(Divergence); ok {
 				out = Outcome{Invalid: d.Error()}
+				r := Rep()
+				r.mu.Lock()
+				if r.divNotes < 3 {
+					r.divNotes++
+					r.Notes = append(r.Notes, "divergence while replaying a prefix (execution discarded): "+d.Msg)
+				}
+				r.mu.Unlock()
 				return
 			}
 			panic(p)
